@@ -249,6 +249,17 @@ fn gen_c20(tier: &str, rng: &mut Rng, emit: &mut dyn FnMut(Op)) {
                 args.push(a);
                 continue;
             }
+            if rng.chance(1, 10) {
+                // a dangling symbolic link / a link to itself among the entries
+                let mut a = vec![b'l'];
+                a.extend(name);
+                if rng.chance(1, 2) {
+                    a.push(0);
+                    a.extend(b"loop");
+                }
+                args.push(a);
+                continue;
+            }
             let mut a = vec![b'd'];
             a.extend(name);
             let missing = if rng.chance(1, 3) { rng.below(8) } else { 0 };
